@@ -57,6 +57,19 @@ def confirm(src, sid, pid):
         places = [l.split()[1:] for l in run_txt.splitlines() if l.startswith("PLACE ")]
         cmds = [l[4:].strip() for l in run_txt.splitlines() if l.startswith("CMD ")]
         if not places or not cmds:
+            # derive from the agent's free-form RUN.txt: `cp _seeded/x/<file> <dest>` and `go test …` / `go run …` lines
+            import re
+            for l in run_txt.splitlines():
+                l = l.strip()
+                m = re.match(r"cp\s+_seeded/\w+/(\S+)\s+(\S+)", l)
+                if m and [m.group(1), m.group(2)] not in places:
+                    places.append([m.group(1), m.group(2)])
+                m = re.search(r"(demo\w*\.go|demo/main\.go)\s+(?:to|at|->|as)\s+(\S+\.go)", l)
+                if m and not places:
+                    places.append([m.group(1), m.group(2)])
+                if re.match(r"(\(cd \S+ && )?(go (test|run) |rm -rf app/)", l) and l not in cmds:
+                    cmds.append(l)
+        if not places or not cmds:
             print("RUN.txt must contain `PLACE <file> <relpath>` and `CMD <shell command>` lines"); return 1
         def place():
             for f, rel in places:
